@@ -495,6 +495,9 @@ func (x *EvalCtx) evalCall(e *Expr) TV {
 		a := x.eval(e.Args[0])
 		c.declareFun("parseTimeOK", []Sort{SInt}, SBool)
 		return TV{Term{app("parseTimeOK", a.T), SBool}, tyBool}
+	case "zeroTime":
+		tt, _ := c.eng.resolveType("time.Time")
+		return TV{IntLit(0), tt}
 	case "parseVal":
 		a := x.eval(e.Args[0])
 		c.declareFun("parseTimeVal", []Sort{SInt}, SInt)
